@@ -71,8 +71,8 @@ CLAIMS = {
         ref="3 C11",
     ),
     "C12": dict(
-        technique="static analysis: ID/position kind inference on matrix builders, index-map provenance (view-order placement), definite assignment in degenerate branches, sparse/dense sibling dtype agreement, filtering-history signatures of zipped sequences, dead-parameter liveness analysis; CFG dominance of the threshold comparison over any collapse of the counts; lint for buffered index-array updates",
-        text="Narrow: decides that rows/columns are addressed through index maps (never labels), that returned maps derive from the map that placed the entries and that this map numbers a view in view order, that degenerate-shape branches assign their result on every path, that the sparse and dense constructions of one builder use the same element type, that stored weights are never replaced by a default through truthiness, that sequences consumed pairwise were filtered identically, that the adjacency tensor is populated idempotently (repeated edges do not add up), and that every parameter of every builder is live. Numerical equality with textbook definitions is NOT decided. In builders with a threshold s the counts are compared with s before they are collapsed to 0/1 on every path (M-THRESH). Matrices are never filled by in-place updates through index arrays where repeated indices must add up (M-FANCY).",
+        technique="static analysis: ID/position kind inference on matrix builders, index-map provenance (view-order placement), definite assignment in degenerate branches, sparse/dense sibling dtype agreement, filtering-history signatures of zipped sequences, dead-parameter liveness analysis; CFG dominance of the threshold comparison over any collapse of the counts; lint for buffered index-array updates; symbolic linear-form comparison of sparse and dense sibling branches",
+        text="Narrow: decides that rows/columns are addressed through index maps (never labels), that returned maps derive from the map that placed the entries and that this map numbers a view in view order, that degenerate-shape branches assign their result on every path, that the sparse and dense constructions of one builder use the same element type, that stored weights are never replaced by a default through truthiness, that sequences consumed pairwise were filtered identically, that the adjacency tensor is populated idempotently (repeated edges do not add up), and that every parameter of every builder is live. Numerical equality with textbook definitions is NOT decided. In builders with a threshold s the counts are compared with s before they are collapsed to 0/1 on every path (M-THRESH). Matrices are never filled by in-place updates through index arrays where repeated indices must add up (M-FANCY); where a builder is straight-line matrix arithmetic, its sparse and dense branches are equal as symbolic linear forms (M-SIB).",
         ref="3 C12",
     ),
     "C13": dict(
